@@ -7,8 +7,7 @@ use std::io::{BufRead, Write};
 #[macro_use]
 mod util;
 mod txgen;
-mod c01;
-mod c18;
+include!("registry.rs");
 
 pub struct Out {
     pub result: String,
@@ -26,24 +25,14 @@ pub struct Case {
 
 fn eval(case: &str) -> Out {
     let kind = case.split(' ').next().unwrap_or("");
-    let r = std::panic::catch_unwind(|| match kind {
-        "C18" => c18::eval(case),
-        "C01" => c01::eval(case),
-        _ => Out::ok(format!("harnesserr unknown kind {}", kind)),
-    });
+    let r = std::panic::catch_unwind(|| eval_dispatch(kind, case));
     match r {
         Ok(o) => o,
         Err(_) => Out { result: "panic".into(), pred_fail: None },
     }
 }
 
-fn gen(prop: &str, rng: &mut ChaCha20Rng, n: usize, thorough: bool) -> Vec<Case> {
-    match prop {
-        "C18" => c18::gen(rng, n, thorough),
-        "C01" => c01::gen(rng, n, thorough),
-        _ => panic!("unknown property {}", prop),
-    }
-}
+fn gen(prop: &str, rng: &mut ChaCha20Rng, n: usize, thorough: bool) -> Vec<Case> { gen_dispatch(prop, rng, n, thorough) }
 
 fn emit(w: &mut dyn Write, case: &Case) {
     let o = eval(&case.text);
